@@ -4,4 +4,5 @@ package basestore
 var verifHarnesses = map[string]func(){
 	"VerifC19Step": VerifC19Step,
 	"VerifC19Rest": VerifC19Rest,
+	"VerifC12Heads": VerifC12Heads,
 }
